@@ -43,9 +43,6 @@ func JSONExpressible(n *Node) (bool, string) {
 			}
 		}
 	case KIface:
-		if n.Name == "Token" {
-			return false, "interface_of_non_struct_objects" // the map form has no typed representation for strings, numbers, slices
-		}
 		for _, im := range n.Impls {
 			if ok, why := JSONExpressible(im); !ok {
 				return false, why
